@@ -1312,6 +1312,15 @@ def replay(cand):
                     return bad("history:find", "%s: sky2image(find=True) gives %r on a fresh object and %r after other conversions" % (name, f1, f2))
                 if not (abs(f1[0] - x) <= 1e-6 and abs(f1[1] - y) <= 1e-6):
                     return bad("inverse:find", "%s: sky2image(image2sky(%r, %r)) = %r with root finding" % (name, x, y, f1))
+                # every position of the image, both sides of the reference meridian (the RA = 0 seam for some headers)
+                cxp, cyp = float(h_use["crpix1"]), float(h_use["crpix2"])
+                for (xq, yq) in pts + [(cxp - 300.0, cyp + 10.0), (cxp - 2.0, cyp), (cxp + 2.0, cyp), (cxp + 300.0, cyp - 10.0)]:
+                    if not (-500 <= xq <= 2600 and -500 <= yq <= 4700):
+                        continue
+                    lq, bq = [float(v) for v in C.image2sky(xq, yq)]
+                    fq = [float(v) for v in C.sky2image(lq, bq)]
+                    if not (abs(fq[0] - xq) <= 1e-6 and abs(fq[1] - yq) <= 1e-6):
+                        return bad("inverse:find", "%s: sky2image(image2sky(%r, %r)) = %r with root finding (longitude %r)" % (name, xq, yq, fq, lq))
                 fa = C.sky2image(np.array([lo]), np.array([la]))
                 if [float(fa[0][0]), float(fa[1][0])] != f1:
                     return bad("scalar-array:sky2image", "%s: sky2image(find=True) scalar %r != array element %r" % (name, f1, [float(fa[0][0]), float(fa[1][0])]))
